@@ -46,6 +46,7 @@ type Call struct {
 	Headers  []Header `json:"headers,omitempty"`
 	BodyLen  int      `json:"body_len"`
 	BodyFill string   `json:"body_fill,omitempty"` // text | bin | json
+	BodyHead string   `json:"body_head,omitempty"` // "" | bom | bom16 | gzip | zip: magic bytes the entity starts with
 	Framing  string   `json:"framing"`             // length | chunked | close
 	Chunks   []int    `json:"chunks,omitempty"`    // chunk sizes (cycled) for chunked framing
 
@@ -193,7 +194,18 @@ func (c *Call) body(tok string) []byte {
 	if c.noBody() {
 		return nil
 	}
-	b := []byte(tok + "|")
+	var b []byte
+	switch c.BodyHead {
+	case "bom":
+		b = append(b, 0xef, 0xbb, 0xbf)
+	case "bom16":
+		b = append(b, 0xff, 0xfe)
+	case "gzip":
+		b = append(b, 0x1f, 0x8b, 0x08)
+	case "zip":
+		b = append(b, 'P', 'K', 0x03, 0x04)
+	}
+	b = append(b, tok+"|"...)
 	for k := 0; k < c.BodyLen; k++ {
 		switch c.BodyFill {
 		case "bin":
@@ -271,6 +283,10 @@ func newCtx(kind, tag string) context.Context {
 		ctx, cancel := context.WithCancel(context.WithValue(context.Background(), ctxKey{}, tag))
 		cancel()
 		return ctx
+	case "background":
+		return context.Background() // exactly the value generated parameter structs default to
+	case "todo":
+		return context.TODO()
 	}
 	return nil
 }
@@ -505,8 +521,8 @@ func judge(c Case, i int, tok string, rec *record) string {
 	if call.OpCtx != "" {
 		effCtx, wantCtx = call.OpCtx, "operation-context"
 	}
-	if effCtx == "nil" {
-		wantCtx = ""
+	if effCtx == "nil" || effCtx == "background" || effCtx == "todo" {
+		wantCtx = "" // a context without the tag value: nothing of the other level may show through
 	}
 	for k, via := range rec.via {
 		if via != wantVia {
